@@ -19,6 +19,18 @@ CHECKS = {
  "C05": dict(cat="model_checking", engine="seq-fault+loom", tech="exhaustive enumeration of abort instants on the real code (every poll index k in [0,N]) plus loom exploration of an abort-flipping thread against 2 workers",
    text="(a) For every subject (10 selectors x several inputs, classgroup) and EVERY poll index k the run is repeated with the abort predicate true from poll k on, in both build profiles; (b) under loom an extra thread flips the abort flag and all interleavings with 2 workers are enumerated within the preemption bound. Oracle: no panic/deadlock, Ok with product n or the failure value, bounded work after the abort is signalled (relations published, CPU time of the calling thread, polls).",
    note="Trusted: CPU-time promptness bound max(1s, 3x complete run) is a work-unit proxy; stages that never poll are bounded only by it. loom part as C04.", ref="3/C05"),
+ "C06": dict(cat="exploration", engine="seq-exhaustive", tech="exhaustive enumeration of all p below a bound against an Eratosthenes table, complete windows, completely enumerated pseudoprime families",
+   text="isprime64 is compared with a sieve table on EVERY p < 2^24 (quick) / 2^32 (thorough), on complete windows around the tier switches (2^20, 2^40, 2^41, 2^32, 2^63, 2^64) and on completely enumerated families where weak base sets fail (p(ap-b), Chernick Carmichael numbers incl. 65..135-bit ones, psi_1..psi_13); pseudoprime() on all of those plus certified 65..500-bit primes, structured even numbers and pairwise products. Even inputs run in a watchdogged subprocess (a non-returning call is a violation).",
+   note="Trusted: reference tests (Eratosthenes; trial division + 12-base Miller-Rabin below 2^64; MR24 + strong Lucas above). Beyond 2^32 the 64-bit test is decided on the families and windows only.", ref="3/C06"),
+ "C07": dict(cat="exploration", engine="seq-exhaustive", tech="bounded-exhaustive differential checking over word alphabets against schoolbook bnum arithmetic, both build profiles",
+   text="Every odd modulus over a 13-value word alphabet for 1..3 words and a 4-value alphabet for 4..8 words (plus 2^(64k)-d, 2^(64k-1)+d, 2^500-d) x an operand set of word-boundary values: roundtrip, gcd, inv, all pairs for mul/add/sub, redc on double-width patterns (incl. all-ones words), redc_large for every length; exhaustive 64-bit mg_* for small odd n; the private 128-bit arithmetic (H1 accessor) against the reference and against ZmodN.",
+   note="Trusted: bnum BUint<40> `* / %`. Silent about values outside the alphabets. The 501..512-bit band is outside the documented limit and not driven.", ref="3/C07"),
+ "C08": dict(cat="exploration", engine="seq-exhaustive", tech="exhaustive enumeration over all primes below a bound x boundary operand sets against native / %",
+   text="modu16 on all primes < 2^16 x all u16; divmod64/modu63/modi64/mod_u128 and the constructor on EVERY prime < 2^24 (quick) / 2^30 (thorough) x ~60 boundary operands; multiword division on 2/4/8/16-word operands with zero/all-ones words; Inverter on every x for small primes and boundary x for primes near every 2^k; sqrt_mod with an Euler-criterion oracle; inv_mod64/pow_mod; isqrt variants; perfect_power against a brute-force table.",
+   note="Trusted: native u64/u128 arithmetic and bnum division. Preconditions written in the source delimit the domains (modu63 < 2^63, Inverter p < 2^28, perfect_power n >= 2).", ref="3/C08"),
+ "C17": dict(cat="model_checking", engine="seq-exhaustive", tech="explicit walk of the complete PrimeSieve state machine (all 65536 blocks) + exhaustive enumeration of k and B1 ranges",
+   text="The segmented sieve is a deterministic state machine: all 65536 states are visited through the real next() and each block is compared with an independent segmented sieve (every prime below 2^32 exactly once, in order), then two calls past the end; primes(k) for every k up to 4096/60000 and the 2^j edges; SmoothBase::new for every B1 in [4,6000/70000], around 65536 and the strategy-table values, with and without large blocks: every block factored back and every prime power below B1 covered; PM1Base likewise.",
+   note="Trusted: plain Eratosthenes reference. B1 above 70000 only at the strategy-table values.", ref="3/C17"),
 }
 
 NOT_APPLICABLE = {
@@ -66,6 +78,7 @@ def main():
         "engines": [
             {"name": "seq-sweep", "path": "harness/src/sweep.rs", "serves_properties": ["C01", "C02", "C03"], "kind_free_text": "subprocess-sharded bounded-exhaustive driver of factor() with crash attribution"},
             {"name": "loom", "path": "lmharness/src/main.rs", "serves_properties": ["C04", "C05"], "kind_free_text": "loom (DPOR, preemption-bounded) exploration of the real code through the cfg-gated shim /repo/src/verif_shim.rs; one subprocess per scenario x bound; failing schedule saved as a loom checkpoint"},
+            {"name": "seq-exhaustive", "path": "harness/src/", "serves_properties": ["C06", "C07", "C08", "C17"], "kind_free_text": "in-process bounded-exhaustive enumerators with reference models (harness/src/refmodel.rs), parallel over 16 cores, panics captured per case"},
             {"name": "seq-fault", "path": "harness/src/c05.rs", "serves_properties": ["C05"], "kind_free_text": "exhaustive abort-instant enumeration on the real factor()/classgroup()"},
         ],
         "checks": checks,
